@@ -104,6 +104,19 @@ class ExtrasMixin:
         key = kwargs.get("key")
         if len(args) > 1:
             items = list(args)
+        elif isinstance(args[0], VTuple) and args[0].items and isinstance(args[0].items[0], VStr) and \
+                str(E.simp(args[0].items[0].t)) == '"#dictitems"':
+            # external contract: min/max over the items of a non-empty dict returns one of its items
+            ref = args[0].items[1]
+            r = self.run.rec(ref.oid)
+            if self.run.decide(r.size <= 0, "dict empty"):
+                if default is not None:
+                    return default
+                raise E.PyExc(VExc("ValueError"), f"{name}() of empty")
+            kt = z3.Const(self.run.fresh_name(f"{r.sym}#argmin"), self.sort_of(r.ktype))
+            self.run.assume(z3.Select(r.dom, kt))
+            self.run.imprecise.append("min/max over symbolic dict: arbitrary element")
+            return VTuple([self.wrap(r.ktype, kt), self.symdict_val(ref, r, kt)])
         else:
             items = self.iterate_concrete(args[0])
         if not items:
@@ -232,25 +245,48 @@ class ExtrasMixin:
         sa = E.simp(a)
         if E.is_false(sa):
             return VBool(True)
-        # evaluate the consequent under the antecedent (so partial expressions are guarded)
-        self.run.solver.push()
-        npc = len(self.run.pc)
-        try:
-            self.run.pc.append(sa)
-            self.run.solver.add(sa)
-            try:
-                b = self.truthy(self.eval(node.args[1], frame))
-            except E.PathEnd:
-                return VBool(True)
-        finally:
-            del self.run.pc[npc:]
-            self.run.solver.pop()
-        return VBool(E.simp(z3.Implies(a, b)))
+        v = self.under(sa, lambda: self.eval(node.args[1], frame))
+        if v is None:
+            return VBool(True)
+        return VBool(E.simp(z3.Implies(a, self.truthy(v))))
 
     def spec_iff(self, node, frame):
         a = self.truthy(self.eval(node.args[0], frame))
         b = self.truthy(self.eval(node.args[1], frame))
         return VBool(E.simp(a == b))
+
+    def spec_calls_to(self, node, frame):
+        """number of havocked-collaborator invocations whose name ends with the given suffix"""
+        suf = node.args[0].value
+        return VInt(len([c for c in self.run.calls if c["name"].endswith(suf)]))
+
+    def spec_returned(self, node, frame):
+        """value returned by the last invocation of the collaborator / contract callee whose name ends with the suffix"""
+        suf = node.args[0].value
+        for c in reversed(self.run.calls + self.run.contract_calls):
+            if c["name"].endswith(suf) and c["outcome"] == "return":
+                return c["value"]
+        return NONE
+
+    def spec_raised(self, node, frame):
+        suf = node.args[0].value
+        return VBool(any(c["name"].endswith(suf) and c["outcome"] == "raise" for c in self.run.calls))
+
+    def spec_clock_first(self, node, frame):
+        """first reading of the ghost clock during this call (or a fresh later time if none was taken)"""
+        t = getattr(self.run, "clock_first", None)
+        return VReal(t if t is not None else z3.Real("clock!none"), "datetime")
+
+    def spec_clock_last(self, node, frame):
+        t = self.run.clock
+        return VReal(t if t is not None else z3.Real("clock!none"), "datetime")
+
+    def spec_encodable(self, node, frame):
+        v = self.eval(node.args[0], frame)
+        return VBool(_fn("encodable", z3.StringSort(), z3.BoolSort())(v.t))
+
+    def spec_is_none(self, node, frame):
+        return VBool(isinstance(self.eval(node.args[0], frame), VNone))
 
     # ------------------------------------------------------------ loop cutting
     def write_set(self, stmts, frame, seen=None):
